@@ -73,6 +73,10 @@ def rule_wmf(S):
         for (nd, kind) in sites:
             n += 1
             ok = cls is not None
+            if ok and cls[0] == 'speculative' and kind != 'delete':
+                # a speculative site may only `delete` the object this function allocated and never published
+                # (decided path-wise below); any other release here frees something readers may still see
+                ok = False
             what = '%s site: %s' % (cls[0], cls[1]) if ok else \
                 'release outside the frozen who-may-free table: an object reachable by concurrent readers must be ' \
                 'retired to the GC queues, not freed'
@@ -219,10 +223,16 @@ def rule_ret(S):
                 owner = root_var(f, q)
                 a = call_args(f, nd)
                 tag_ok = False
-                for x in f.walk(a[0]) if a else []:
-                    if is_call(x, cq=Y + 'thread_info::get_begin_epoch'):
-                        tag_ok = root_var(f, call_recv(f, x)) == owner
-                        break
+                # the epoch component is the first element of the braced tuple; it must be exactly
+                # <owner>->get_begin_epoch(), not an expression computed from it
+                tup = f.strip(a[0], casts=True) if a else None
+                first = None
+                if tup is not None:
+                    kids = [f.strip(c, casts=True) for c in (tup.get('args') or tup.get('ch') or [])]
+                    kids = [k_ for k_ in kids if k_ is not None]
+                    first = kids[0] if kids else None
+                if first is not None and is_call(first, cq=Y + 'thread_info::get_begin_epoch'):
+                    tag_ok = root_var(f, call_recv(f, first)) == owner
                 ini = R.var_decl_init(f, owner) if owner else None
                 from_token = ini is not None and any(
                     x['k'] == 'DeclRefExpr' and (x.get('ty') or '') == 'void *' and x.get('dk') == 'parm'
